@@ -67,6 +67,8 @@ type Config struct {
 	// BusyTimeoutMS is litestream's SQLite busy timeout (0 = fail immediately, the harness default; the
 	// product default is 1000). Only the LCW operation needs it to be non-zero.
 	BusyTimeoutMS int `json:"busy_timeout_ms,omitempty"`
+	// ReplicaFaults makes the RF operation legal: a one-shot failure of the next upload (WriteLTXFile).
+	ReplicaFaults bool `json:"replica_faults,omitempty"`
 }
 
 // DefaultConfig returns the baseline configuration used by most checks.
@@ -141,6 +143,7 @@ type Scn struct {
 	RemoteDead bool   // the worker died (killed) during an op
 	DistinctMS bool
 	TickGapMS  int64       // minimum distance in ms between file-creating operations when DistinctMS is set
+	rfArmed    string      // replica upload fault (RF:mode) pending: "" | before | mid
 	lfArmed    func() bool // local staging fault (LF:mode) still pending?
 	lfMode     string
 	savedDB    []byte
@@ -383,6 +386,9 @@ func (s *Scn) lsNew() error {
 	if s.WrapClient != nil {
 		// engine E4: litestream talks to the replica through a fault-injecting wrapper
 		rep.Client = s.WrapClient(client)
+	} else if s.Cfg.ReplicaFaults {
+		// one-shot upload faults armed by the RF operation
+		rep.Client = &rfClient{ReplicaClient: client, s: s}
 	}
 
 	if s.Cfg.UseStore {
@@ -881,3 +887,25 @@ func MaxTXID(root string, level int) ltx.TXID {
 
 // LocalLTXRoot is the local meta directory of the scenario database.
 func (s *Scn) LocalLTXRoot() string { return s.DB.MetaPath() }
+
+// rfClient fails the next WriteLTXFile once when armed by the RF operation: "before" returns an error without
+// reading the body, "mid" reads half of it first (the producer is left with an unfinished stream).
+type rfClient struct {
+	litestream.ReplicaClient
+	s *Scn
+}
+
+var errRFInjected = errors.New("injected upload failure")
+
+func (c *rfClient) WriteLTXFile(ctx context.Context, level int, minTXID, maxTXID ltx.TXID, r io.Reader) (*ltx.FileInfo, error) {
+	mode := c.s.rfArmed
+	if mode == "" {
+		return c.ReplicaClient.WriteLTXFile(ctx, level, minTXID, maxTXID, r)
+	}
+	c.s.rfArmed = ""
+	if mode == "mid" {
+		buf := make([]byte, 256)
+		_, _ = io.ReadFull(r, buf)
+	}
+	return nil, errRFInjected
+}
